@@ -106,6 +106,12 @@ def case(cid, rng):
             G = G2
     # query points are never descriptors: half-lattice positions
     Q = rng.integers(-4, 28, size=(4, dim)) + 0.25      # never a descriptor, never exactly half a cell from anything
+    if dim >= 2 and rng.random() < 0.5:
+        # a query that is not a descriptor but shares the exact value of ONE coordinate with a descriptor (quantised data);
+        # with a cell only along a side of odd length, so that the shared coordinate is never exactly half a cell away
+        ax = int(rng.integers(dim))
+        if not periodic or cell[ax] % 2 == 1:
+            Q[0, ax] = float(D[int(rng.integers(nd)), ax])
     far = (not periodic) and rng.random() < 0.3
     if far:
         Qnear = Q[-1].copy()
